@@ -63,12 +63,38 @@ func luaStr(s string) string {
 	return b.String()
 }
 
+// luaTable renders a list the way scripts write tables: positionally, with explicit 1-based keys in any order, and — a list of ONE element, where no
+// order can be at stake — counted from 0 or under a name (the host takes every value of the table it is handed, whatever its key).  The spelling is a
+// function of the content, so a case replays the same script.
+func luaTable(items []string, content []string) string {
+	h := 0
+	for _, s := range content {
+		for _, c := range []byte(s) {
+			h = (h*31 + int(c)) & 0xffff
+		}
+	}
+	switch {
+	case len(items) == 1 && h%5 == 1:
+		return "{[0] = " + items[0] + "}"
+	case len(items) == 1 && h%5 == 2:
+		return "{only = " + items[0] + "}"
+	case len(items) >= 2 && h%5 == 3:
+		p := make([]string, len(items))
+		for i := range items {
+			j := len(items) - 1 - i
+			p[i] = fmt.Sprintf("[%d] = %s", j+1, items[j])
+		}
+		return "{" + strings.Join(p, ", ") + "}"
+	}
+	return "{" + strings.Join(items, ", ") + "}"
+}
+
 func luaStrList(l []string) string {
 	p := make([]string, len(l))
 	for i, s := range l {
 		p[i] = luaStr(s)
 	}
-	return "{" + strings.Join(p, ", ") + "}"
+	return luaTable(p, l)
 }
 
 func luaAddrList(l []string) string {
